@@ -62,7 +62,7 @@ func runC15(c *ev.Ctx) {
 		"Demuxer.GetChunk, animation.DecodeBytes and the independent walker; VP8X flags <=> chunks; image payloads and decoded pixels identical to the metadata-free encode; " +
 		"distinct = (kind, subset, blob classes)"
 	kinds := []string{"still-lossy", "still-lossy-alpha", "still-lossless", "anim-lossless", "anim-lossy", "anim-single", "still-lossless-alpha"}
-	n := c.N(1600, 40000)
+	n := c.N(5000, 1000000)
 	var cases []ev.Case
 	for i := 0; i < n; i++ {
 		r := rng(c, i)
